@@ -98,8 +98,27 @@ enum Entry {
 	ServerTcpHttp,
 	/// the default server over loopback TCP, soketto peer
 	ServerTcpWs,
+	/// like TowerHttp / TowerWs, but the configuration is assembled in another order: limits first, then the
+	/// transport restriction (`http_only()` / `ws_only()`) as the last builder call
+	TowerHttpOnly,
+	TowerWsOnly,
 }
-const ENTRIES: [Entry; 7] = [Entry::TowerHttp, Entry::TowerWs, Entry::LowHttpBuilder, Entry::LowHttpService, Entry::LowWsConnect, Entry::ServerTcpHttp, Entry::ServerTcpWs];
+const ENTRIES: [Entry; 9] = [
+	Entry::TowerHttp,
+	Entry::TowerWs,
+	Entry::LowHttpBuilder,
+	Entry::LowHttpService,
+	Entry::LowWsConnect,
+	Entry::ServerTcpHttp,
+	Entry::ServerTcpWs,
+	Entry::TowerHttpOnly,
+	Entry::TowerWsOnly,
+];
+
+fn cfg_restricted(req: u32, resp: u32, ws: bool) -> ServerConfig {
+	let b = srv::cfg_builder().max_request_body_size(req).max_response_body_size(resp);
+	if ws { b.ws_only().build() } else { b.http_only().build() }
+}
 
 /// a minimal RpcServiceT for `http::call_with_service`
 #[derive(Clone)]
@@ -139,9 +158,10 @@ async fn run_http(entry: Entry, req_limit: u32, resp_limit: u32, msg: &[u8], v: 
 	let log: srv::InvLog = Arc::new(Mutex::new(Vec::new()));
 	let request = http_req(msg, v);
 	let out = match entry {
-		Entry::TowerHttp => {
+		Entry::TowerHttp | Entry::TowerHttpOnly => {
 			let (stop, _handle) = stop_channel();
-			let mut svc = jsonrpsee_server::Server::builder().set_config(cfg(req_limit, resp_limit)).to_service_builder().build(srv::std_module(log.clone()), stop);
+			let c = if entry == Entry::TowerHttpOnly { cfg_restricted(req_limit, resp_limit, false) } else { cfg(req_limit, resp_limit) };
+			let mut svc = jsonrpsee_server::Server::builder().set_config(c).to_service_builder().build(srv::std_module(log.clone()), stop);
 			srv::http_call(&mut svc, request).await?
 		}
 		Entry::LowHttpBuilder => {
@@ -287,8 +307,9 @@ async fn run_ws(entry: Entry, req_limit: u32, resp_limit: u32, msg: &[u8]) -> Re
 	}
 	let (stop, handle) = stop_channel();
 	let mut conn = match entry {
-		Entry::TowerWs => {
-			let svc = jsonrpsee_server::Server::builder().set_config(cfg(req_limit, resp_limit)).to_service_builder().build(srv::std_module(log.clone()), stop.clone());
+		Entry::TowerWs | Entry::TowerWsOnly => {
+			let c = if entry == Entry::TowerWsOnly { cfg_restricted(req_limit, resp_limit, true) } else { cfg(req_limit, resp_limit) };
+			let svc = jsonrpsee_server::Server::builder().set_config(c).to_service_builder().build(srv::std_module(log.clone()), stop.clone());
 			srv::ws_connect(svc, stop.clone()).await?
 		}
 		Entry::LowWsConnect => {
@@ -353,7 +374,7 @@ async fn run_ws(entry: Entry, req_limit: u32, resp_limit: u32, msg: &[u8]) -> Re
 
 pub fn check(rep: &Reporter) {
 	rep.set_rule(
-		"(max_request, max_response) over 8 pairs incl. unequal ones (thorough: + every request limit 60..140 against response limits 36 and 100000, + 3 large pairs) × message size ∈ {limit−2 … limit+2, 2·limit, 10·limit, limit·3/2} (thorough: also ±3, +7, 3·limit, +127, +128) × 3 padding styles (inner whitespace, ignored string param, ≤127 leading whitespace) × entry point {TowerService over HTTP, TowerService over WebSocket, http::call_with_service_builder, http::call_with_service, ws::connect, Server::start over loopback TCP with a raw HTTP/1.1 peer (Content-Length or chunked), Server::start over loopback TCP with a WebSocket peer} × HTTP body variants {1 frame+CL, 1 frame no CL, 3 frames, many 16-byte frames, 3 frames+CL, lying small CL}; the message is always a valid `add` call, so 'processed' = handler ran once and the sum came back. Distinct by the whole tuple; every case non-trivial.",
+		"(max_request, max_response) over 8 pairs incl. unequal ones (thorough: + every request limit 60..140 against response limits 36 and 100000, + 3 large pairs) × message size ∈ {limit−2 … limit+2, 2·limit, 10·limit, limit·3/2} (thorough: also ±3, +7, 3·limit, +127, +128) × 3 padding styles (inner whitespace, ignored string param, ≤127 leading whitespace) × entry point {TowerService over HTTP, TowerService over WebSocket, the same two with the configuration assembled limits-first and http_only()/ws_only() last, http::call_with_service_builder, http::call_with_service, ws::connect, Server::start over loopback TCP with a raw HTTP/1.1 peer (Content-Length or chunked), Server::start over loopback TCP with a WebSocket peer} × HTTP body variants {1 frame+CL, 1 frame no CL, 3 frames, many 16-byte frames, 3 frames+CL, lying small CL}; the message is always a valid `add` call, so 'processed' = handler ran once and the sum came back. Distinct by the whole tuple; every case non-trivial.",
 	);
 	rep.assume("WebSocket messages are sent as one unfragmented frame");
 	let thorough = rep.tier.thorough();
@@ -385,7 +406,7 @@ pub fn check(rep: &Reporter) {
 						continue;
 					}
 					match e {
-						Entry::TowerWs | Entry::LowWsConnect | Entry::ServerTcpWs => cases.push((gi, n, pad, e, HttpVariant::OneFrameCl)),
+						Entry::TowerWs | Entry::LowWsConnect | Entry::ServerTcpWs | Entry::TowerWsOnly => cases.push((gi, n, pad, e, HttpVariant::OneFrameCl)),
 						Entry::ServerTcpHttp => {
 							// a lying Content-Length is not expressible over a real HTTP/1.1 connection (hyper frames the body by it)
 							for v in HTTP_VARIANTS.iter().filter(|v| **v != HttpVariant::LyingSmallCl) {
@@ -407,7 +428,7 @@ pub fn check(rep: &Reporter) {
 		let (gi, n, pad, entry, variant) = cases[i];
 		let (rq, rs) = grid[gi];
 		let Some(msg) = message(n, pad) else { return };
-		let is_ws = matches!(entry, Entry::TowerWs | Entry::LowWsConnect | Entry::ServerTcpWs);
+		let is_ws = matches!(entry, Entry::TowerWs | Entry::LowWsConnect | Entry::ServerTcpWs | Entry::TowerWsOnly);
 		let is_tcp = matches!(entry, Entry::ServerTcpHttp | Entry::ServerTcpWs);
 		let mut res = rt.block_on(async {
 			if is_ws { run_ws(entry, rq, rs, &msg).await } else { run_http(entry, rq, rs, &msg, variant).await }
@@ -483,7 +504,7 @@ pub fn check(rep: &Reporter) {
 	par_for(rep, indep.len(), 2, srv::rt, |i, rt, local| {
 		let (rq, n, pad, entry, variant) = indep[i];
 		let Some(msg) = message(n, pad) else { return };
-		let is_ws = matches!(entry, Entry::TowerWs | Entry::LowWsConnect | Entry::ServerTcpWs);
+		let is_ws = matches!(entry, Entry::TowerWs | Entry::LowWsConnect | Entry::ServerTcpWs | Entry::TowerWsOnly);
 		let mut seen: Vec<(u32, (usize, bool))> = Vec::new();
 		for rs in [36u32, 100, 1000, 1 << 20] {
 			let res = rt.block_on(async { if is_ws { run_ws(entry, rq, rs, &msg).await } else { run_http(entry, rq, rs, &msg, variant).await } });
